@@ -245,6 +245,26 @@ type (
 	EmbPHr         struct{ *Hr }
 )
 
+// Pr implements ast.Printable (the engine prints such a value with the HTML escaper); IfcSelf's Interface()
+// returns the value itself, IfcChain's a value one step shorter.
+type (
+	Pr       struct{ V interface{} }
+	IfcSelf  struct{}
+	IfcChain struct{ N int }
+	StrHTML  struct{} // both a Stringer and an HTMLer
+)
+
+func (Pr) Printable() bool               { return true }
+func (s IfcSelf) Interface() interface{} { return s }
+func (c IfcChain) Interface() interface{} {
+	if c.N <= 0 {
+		return "end"
+	}
+	return IfcChain{c.N - 1}
+}
+func (StrHTML) String() string      { return "<s>" }
+func (StrHTML) HTML() template.HTML { return "<h>" }
+
 func (f MyFn) Twice(i int) int { // nil-safe
 	if f == nil {
 		return i
@@ -612,6 +632,15 @@ var widePool = []*pv{
 	w("panys", "ptr", func() interface{} { return &[]interface{}{1, nil} }),
 	w("piter", "ptr", func() interface{} { it := &iterT{items: []interface{}{1}}; return &it }),
 	w("perr", "ptr", func() interface{} { e := errors.New("pe"); return &e }),
+	// values the output tag treats specially: ast.Printable, Interface() chains, Stringer + HTMLer
+	w("printable", "struct", func() interface{} { return Pr{V: []interface{}{1, "<b>", nil}} }),
+	w("ifcself", "struct", func() interface{} { return IfcSelf{} }),
+	w("ifcchain", "struct", func() interface{} { return IfcChain{N: 3000} }),
+	w("strhtml", "struct", func() interface{} { return StrHTML{} }),
+	w("anysprintable", "slice", func() interface{} {
+		return []interface{}{Pr{}, IfcSelf{}, IfcChain{N: 5}, StrHTML{}, Hr{"h"}, Str{"s"}}
+	}),
+	{Name: "selfprintable", Kind: "struct", Odd: true, Wide: true, Fatal: true, Mk: func() interface{} { s := []interface{}{nil}; s[0] = s; return Pr{V: s} }},
 	// library types that turn up as data
 	w("rvint", "struct", func() interface{} { return reflect.ValueOf(42) }),
 	w("rvslice", "struct", func() interface{} { return reflect.ValueOf([]int{1, 2}) }),
@@ -969,6 +998,9 @@ type Case struct {
 	Vars   []string `json:"vars"`
 	Iso    bool     `json:"isolate,omitempty"` // render in a child process (the template itself builds a value that contains itself)
 	Ctx    string   `json:"context,omitempty"` // "": plush.NewContextWith(data); "helptest": plush's other hctx.Context implementation
+	// Seq: the template is parsed ONCE and executed once per entry of Vars, each time on a fresh context in which
+	// the variable x holds that pool value (state kept between executions, e.g. in the syntax tree, would show)
+	Seq bool `json:"sequence,omitempty"`
 }
 
 type cell struct {
@@ -1187,6 +1219,20 @@ func render(c Case) (res vk.Res, parseErr error, harness error) {
 	}
 	if pres.Err != nil {
 		return vk.Res{}, pres.Err, nil
+	}
+	if c.Seq {
+		for _, n := range c.Vars {
+			d, err := buildData([]string{n, "fblk", "fany"})
+			if err != nil {
+				return vk.Res{}, nil, err
+			}
+			d["x"] = d[n]
+			res = vk.Safe(func() (string, error) { return tpl.Exec(plush.NewContextWith(d)) })
+			if res.Panicked() {
+				return res, nil, nil
+			}
+		}
+		return vk.Res{Out: "sequence done"}, nil, nil
 	}
 	res = vk.Safe(func() (string, error) {
 		switch c.Ctx {
@@ -1692,6 +1738,22 @@ func callable(p *pv) bool {
 	return p.Kind == "func" || p.Kind == "ufn" || p.Kind == "derived" || p.Kind == "ptr"
 }
 
+// takesTwo: a template-defined function, a derived callee, or a Go function (possibly behind pointers) that is
+// variadic or has at least two parameters
+func takesTwo(p *pv) bool {
+	if p.Kind == "ufn" || p.Kind == "derived" {
+		return true
+	}
+	if p.Mk == nil || p.Heavy || p.Fatal {
+		return false
+	}
+	t := reflect.TypeOf(p.Mk())
+	for t != nil && t.Kind() == reflect.Ptr {
+		t = t.Elem()
+	}
+	return t != nil && t.Kind() == reflect.Func && (t.IsVariadic() || t.NumIn() >= 2)
+}
+
 func matrixCall(r *vk.Run, b *builder) {
 	callees := append([]*pv{}, pool...)
 	callees = append(callees, sub("pS", ".Add"), sub("pS", ".Var"), sub("pS", ".Fn"), sub("sval", ".Fn"), sub("szero", ".Fn"), sub("pS", ".PHello"), sub("nilpS", ".PHello"), sub("pS", ".Blk"), sub("pS", ".F"), sub("anys", "[0]"))
@@ -1713,7 +1775,7 @@ func matrixCall(r *vk.Run, b *builder) {
 	}
 	if r.Thorough() { // two arguments, both from the whole pool
 		for _, cal := range callees {
-			if !callable(cal) { // what is not callable fails before its arguments are looked at (1 argument: whole pool, above)
+			if !takesTwo(cal) { // what is not callable, or takes fewer than two arguments, fails before its arguments are looked at (1 argument: whole pool, above)
 				continue
 			}
 			for _, a := range pool {
@@ -1878,8 +1940,8 @@ func matrixTarget(r *vk.Run, b *builder) {
 			continue
 		}
 		for _, m := range []string{".L", ".M", ".P.L", ".P.M", ".Any", ".A", ".PA", ".IA", ".AA[0]", ".Kids", ".Up", ".Next.Kids", ".s", ".m", ".F", ".Nope", ".Hello()", ".Err", ".Fn"} {
-			for _, i := range idx {
-				for _, v := range vals {
+			for _, i := range idx[:r.Pick(6, 8)] {
+				for _, v := range vals[:r.Pick(3, 6)] {
 					b.add(cell{mkCase("target", fmt.Sprintf("<%% %[1]s%[2]s[%[3]s] = %[4]s %%><%%= %[1]s%[2]s[%[3]s] %%>", c.spell(), m, i.spell(), v.spell()), c, i, v), true, "target/c.m[i] = v"})
 				}
 			}
@@ -1962,7 +2024,7 @@ func matrixOdd(r *vk.Run, b *builder) {
 		`<%%= for (k, v) in %[1]s { %%><%%= inspect(break) %%><%%= toJSON(continue) %%><%% } %%>`,
 		`<%%= for (k, v) in %[1]s { %%><%% %[1]s[break] = 1 %%><%% } %%>`,
 		`<%%= for (k, v) in %[1]s { %%><%% %[1]s[k] = continue %%><%% } %%><%%= %[1]s %%>`,
-		`<%%= for (k, v) in %[1]s { %%><%%= !break %%><%%= break == continue %%><%%= if (break) { %%>T<%% } %%><%% } %%>`,
+		`<%%= for (k, v) in %[1]s { %%><%%= !break %%><%%= break == continue %%><%%= nil == break %%><%% } %%>`,
 		`<%%= for (k, v) in %[1]s { %%><%%= for (a, b) in break { %%>x<%% } %%><%% } %%>`,
 		`<%%= for (k, v) in %[1]s { %%><%%= break() %%><%% } %%>`,
 		`<%%= for (k, v) in %[1]s { %%><%%= continue.F %%><%% } %%>`,
@@ -2077,6 +2139,29 @@ func matrixCtx(r *vk.Run, b *builder) {
 	for _, t := range []string{"plain", "<%= 1 + 1 %>", "<% let a = 1 %><%= a %>", `<%= len("ab") %>`, "<%= for (v) in [1, 2] { %><%= v %><% } %>", "<%= unk %>", "<%= f0() %>", `<%= {"a": 1}["a"] %>`, "<% let f = fn(q) { return q } %><%= f(1) %>"} {
 		for _, cx := range []string{"nildata", "buffalo-nildata"} {
 			b.add(cell{Case{Matrix: "ctx", Tmpl: vk.Text(t), Ctx: cx}, true, "ctx/no data"})
+		}
+	}
+}
+
+// matrixReexec: ONE parsed template executed for a sequence of contexts in which x is of changing kind
+func matrixReexec(r *vk.Run, b *builder) {
+	var names []string
+	for _, p := range pool {
+		if p.Mk != nil && !p.Heavy && !p.Fatal {
+			names = append(names, p.Name)
+		}
+	}
+	forms := append([]string{}, sweepExprs...)
+	for i, f := range forms {
+		forms[i] = "<%= " + strings.ReplaceAll(f, "v", "x") + " %>"
+	}
+	forms = append(forms, "<%= for (k, w) in x { %><%= k %><%= w %><% } %>", "<%= if (x) { %>T<% } else { %>F<% } %>", "<% let y = x %><%= y %>", "<% x[0] = 1 %><%= x %>", `<% x["a"] = x %>ok`,
+		"<%= x.P.F %>", "<%= x.Add(1) %>", "<%= x(1, 2) %>", "<%= -x %>", "<%= x[0].F %>", "<%= x().F %>", "<% let f = fn(q) { return q[0] } %><%= f(x) %>", "<%= fblk() { %><%= x %><% } %>", `<%= partial("p", {"k": x}) %>`, "<%= x ~= x %>")
+	step := r.Pick(29, 5)
+	for k, f := range forms {
+		for rot := k % step; rot < len(names); rot += step {
+			seq := append(append([]string{}, names[rot:]...), names[:rot]...)
+			b.add(cell{Case{Matrix: "reexec", Tmpl: vk.Text(f), Vars: seq, Seq: true}, true, fmt.Sprintf("reexec/form%d", k)})
 		}
 	}
 }
@@ -2609,6 +2694,7 @@ func TestProp(t *testing.T) {
 	runCells(r, "odd: pool x 60 shapes: loop variables / iterable re-assigned in the body, break / continue / return in odd positions, pool values as hash keys, context keys the engine reads", matrixOdd)
 	runCells(r, "prefix: pool x 67 shapes of the prefix operators - and ! (spaced, doubled, parenthesised, on calls / absent entries / nil members, nested in infix expressions, in if / let / for / return / arguments / literals) + 21 literal operands x 15 shapes", matrixPrefix)
 	runCells(r, "ctx: pool x 29 statement, loop, call and helper shapes executed with a helptest.HelperContext as the context and through BuffaloRenderer; 9 templates with a nil data map", matrixCtx)
+	runCells(r, "reexec: 38 templates, each parsed once and executed for every pool value in turn (x of changing kind), in rotated orders", matrixReexec)
 	runCells(r, "sweep: 23 expressions evaluated in one loop over every pool value they accept, in rotated orders, and after a good value over every other value", matrixSweep)
 
 	r.Rapid("random", r.Pick(20000, 150000), func(t *rapid.T) *vk.Fail {
@@ -2718,16 +2804,18 @@ func fuzzData() map[string]interface{} {
 
 var fnWord = regexp.MustCompile(`\b(fn|func)\b`)
 
+var indexAssign = regexp.MustCompile(`\]\s*=[^=]`)
+
 func FuzzRender(f *testing.F) {
 	r := &vk.Run{}
 	b := &builder{r: r}
 	_ = b
 	seeds := 0
-	for _, m := range []func(*vk.Run, *builder){matrixOps, matrixIndex, matrixMember, matrixFor, matrixCall, matrixStmt} {
+	for _, m := range []func(*vk.Run, *builder){matrixOps, matrixIndex, matrixMember, matrixFor, matrixCall, matrixStmt, matrixTarget, matrixChain, matrixOdd, matrixPrefix} {
 		bb := &builder{r: &vk.Run{Shards: 1}}
 		m(bb.r, bb)
 		for i, c := range bb.cells {
-			if i%997 == 0 && !fnWord.MatchString(string(c.c.Tmpl)) {
+			if i%997 == 0 && !fnWord.MatchString(string(c.c.Tmpl)) && !needsIsolation(c.c) && c.c.Ctx == "" {
 				f.Add([]byte(c.c.Tmpl))
 				seeds++
 			}
@@ -2740,6 +2828,9 @@ func FuzzRender(f *testing.F) {
 		src := string(in)
 		if fnWord.MatchString(src) {
 			t.Skip()
+		}
+		if knownOpen["stringsOperator@compiler.go: fatal error: stack overflow"] && indexAssign.MatchString(src) {
+			t.Skip() // while the cyclic-value class is open: a template can store a collection into itself and print it with "" + x
 		}
 		res := vk.Safe(func() (string, error) { return plush.Render(src, plush.NewContextWith(fuzzData())) })
 		if res.Panicked() && !res.Budget {
